@@ -128,4 +128,68 @@ Section Sched.
       exists c. split; auto. unfold enabled. congruence.
     Qed.
   End Progress.
+
+  (* ---------------------------------------------------------------- bounded progress under ANY schedule
+     (the form of DESIGN 5.2: the measure strictly decreases on every step of a designated thread and never
+     increases otherwise), with spurious wake-ups: a step whose label is a spurious wake-up may put its thread
+     back by at most k.  Conclusion: a schedule -- of any threads, in any order, of any length -- in which the
+     designated threads take more than  mu s + k * (number of spurious wake-ups)  non-spurious steps has
+     reached the goal.  Together with [fair_never_stuck] (while the goal is not reached some designated thread
+     is enabled for a reason other than a spurious wake-up) this is "the goal is reached under fair scheduling". *)
+  Section Fair.
+    Variable D : St -> Choice -> bool.
+    Variable spurious : Label -> bool.
+    Variable goal : St -> bool.
+    Variable mu : St -> nat.
+    Variable k : nat.
+    Variable W : St -> Prop.
+    Hypothesis W_inv : forall s c s' l, W s -> step s c = Some (s', l) -> W s'.
+    Hypothesis W_dec : forall s c s' l, W s -> goal s = false -> step s c = Some (s', l) ->
+        if spurious l then mu s' <= mu s + k else if D s c then mu s' < mu s else mu s' <= mu s.
+    Hypothesis W_live : forall s, W s -> goal s = false ->
+        exists c s' l, D s c = true /\ step s c = Some (s', l) /\ spurious l = false.
+
+    (* (non-spurious steps taken by designated threads, spurious wake-ups taken) along a schedule *)
+    Fixpoint tally (s : St) (cs : list Choice) : nat * nat :=
+      match cs with
+      | [] => (0, 0)
+      | c :: cs' =>
+        match step s c with
+        | None => tally s cs'
+        | Some (s', l) =>
+          let (d, p) := tally s' cs' in
+          if spurious l then (d, S p) else if D s c then (S d, p) else (d, p)
+        end
+      end.
+
+    Theorem fair_progress :
+      forall cs s, W s -> mu s + k * snd (tally s cs) < fst (tally s cs) ->
+                   exists n, goal (final s (firstn n cs)) = true.
+    Proof.
+      induction cs as [|c cs IH]; intros s HW H.
+      - simpl in H. lia.
+      - destruct (goal s) eqn:G.
+        + exists 0. exact G.
+        + simpl in H. destruct (step s c) as [[s' l]|] eqn:E.
+          * pose proof (W_dec _ _ _ _ HW G E) as Hd.
+            pose proof (W_inv _ _ _ _ HW E) as HW'.
+            destruct (tally s' cs) as [d p] eqn:T.
+            assert (Hlt : mu s' + k * p < d).
+            { destruct (spurious l); [|destruct (D s c)]; simpl in H.
+              - rewrite Nat.mul_succ_r in H. lia.
+              - lia.
+              - lia. }
+            destruct (IH s' HW') as (n & Hn); [rewrite T; exact Hlt|].
+            exists (S n). simpl. rewrite final_cons, E. exact Hn.
+          * destruct (IH s HW H) as (n & Hn).
+            exists (S n). simpl. rewrite final_cons, E. exact Hn.
+    Qed.
+
+    Theorem fair_never_stuck : forall s, W s -> goal s = false ->
+        exists c, D s c = true /\ enabled s c.
+    Proof.
+      intros s HW G. destruct (W_live s HW G) as (c & s' & l & HD & Hs & _).
+      exists c. split; auto. unfold enabled. congruence.
+    Qed.
+  End Fair.
 End Sched.
